@@ -36,6 +36,11 @@ func cases(r *evid.Run) []chainsim.Case {
 		i := len(out)
 		out = append(out, chainsim.Case{Index: i, Seed: uint64(r.Seed)*1_000_003 + uint64(i), Profile: "keymanager", Blocks: blocks})
 	}
+	// VRF beacon backend (alpha derived from the proof map, validators and committees ordered by VRF outputs).
+	for j, k := 0, r.Pick(4, 100); j < k; j++ {
+		i := len(out)
+		out = append(out, chainsim.Case{Index: i, Seed: uint64(r.Seed)*1_000_003 + uint64(i), Profile: "vrf", Blocks: blocks})
+	}
 	return out
 }
 
